@@ -1,5 +1,6 @@
 import KafVerif.Model.ProduceGate
 import KafVerif.Lemmas.Lease
+import KafVerif.Lemmas.LeaseAcquireAll
 /-!
 C19 — a broker appends only to partitions whose lease it holds.
 
@@ -99,6 +100,85 @@ theorem _root_.KafVerif.C19.lease_nil_means_owned (var : Variant) (s : Lease.Sta
     | some x => cases x <;> simp_all [ofRes]
   subst hr
   exact step_ok_owns var s op s' hstep
+
+/-- **AcquireAll covers every requested partition**: the result list has exactly one entry per
+requested partition, in request order — no partition is left without a lease result (a cap on the
+fan-out that silently drops the overflow would break exactly this). -/
+theorem _root_.KafVerif.C19.acquireAll_covers_every_partition (b : Nat) (fail : Bool) (l : Lease.State) (ps : List Nat) :
+    (acquireAll b fail l ps).2.map (·.1) = ps := by
+  induction ps generalizing l with
+  | nil => simp [acquireAll]
+  | cons p ps ih =>
+    simp only [acquireAll]
+    split <;> simp [ih]
+
+/-- … and every nil result reflects an actual attempt: the partition was found in the ownership set
+or an `Acquire` call for it returned nil, and it is (still) owned when `AcquireAll` returns. -/
+theorem _root_.KafVerif.C19.acquireAll_nil_owned (b : Nat) (fail : Bool) (l : Lease.State) (ps : List Nat) (p : Nat)
+    (h : (p, LeaseRes.nil) ∈ (acquireAll b fail l ps).2) : owns (acquireAll b fail l ps).1 b p = true := by
+  induction ps generalizing l with
+  | nil => simp [acquireAll] at h
+  | cons q ps ih =>
+    simp only [acquireAll] at h ⊢
+    split at h
+    · rename_i ho
+      simp only [ho, if_true]
+      simp only [List.mem_cons, Prod.mk.injEq, and_true] at h
+      rcases h with rfl | h
+      · exact acquireAll_mono b fail l ps b p ho
+      · exact ih l h
+    · rename_i ho
+      simp only [ho, Bool.false_eq_true, if_false]
+      simp only [List.mem_cons, Prod.mk.injEq] at h
+      rcases h with ⟨rfl, hr⟩ | h
+      · have hok := ofRes_nil hr.symm
+        exact acquireAll_mono b fail _ ps b p ((runAcquire_spec l b p fail).2 hok)
+      · exact ih _ h
+
+theorem leaseOf_mem (results : List (Nat × LeaseRes)) (p : Nat) (hp : p ∈ results.map (·.1)) :
+    (p, leaseOf results p) ∈ results := by
+  unfold leaseOf
+  cases hf : results.find? (fun x => x.1 == p) with
+  | none =>
+    have := List.find?_eq_none.mp hf
+    obtain ⟨x, hx, rfl⟩ := List.mem_map.mp hp
+    exact absurd (by simp) (this x hx)
+  | some x =>
+    have hm := List.mem_of_find?_eq_some hf
+    have hx : x.1 = p := by simpa using List.find?_some hf
+    simp only
+    rw [← hx]
+    exact hm
+
+/-- **the gate of a whole produce request** (depends on `acquireAll_covers_every_partition`): for
+every requested partition, a success code means the partition is in the broker's ownership set when
+`acquirePartitionLeases` returns — whatever the rest of the request looks like, however many
+partitions it has. -/
+theorem _root_.KafVerif.C19.produce_request_gate (b : Nat) (fail : Bool) (env : Nat → PartIn) (l : Lease.State) (parts : List Nat)
+    (p : Nat) (out : PartOut) (hmem : (p, out) ∈ (produceRequest b fail env l parts).2) (hcode : out.code = 0) :
+    owns (produceRequest b fail env l parts).1 b p = true := by
+  simp only [produceRequest, List.mem_map, Prod.mk.injEq] at hmem
+  obtain ⟨q, hq, rfl, rfl⟩ := hmem
+  have hnil := (KafVerif.C19.produce_gate_partial _ hcode).1
+  simp only at hnil
+  have hcov := KafVerif.C19.acquireAll_covers_every_partition b fail l parts
+  have := leaseOf_mem (acquireAll b fail l parts).2 q (by rw [hcov]; exact hq)
+  rw [hnil] at this
+  exact KafVerif.C19.acquireAll_nil_owned b fail l parts q this
+
+/-- and nothing is appended for a partition whose lease attempt failed -/
+theorem _root_.KafVerif.C19.produce_request_no_write (b : Nat) (fail : Bool) (env : Nat → PartIn) (l : Lease.State) (parts : List Nat)
+    (p : Nat) (out : PartOut) (hmem : (p, out) ∈ (produceRequest b fail env l parts).2)
+    (hw : out.appended = true ∨ out.flushed = true) :
+    owns (produceRequest b fail env l parts).1 b p = true := by
+  simp only [produceRequest, List.mem_map, Prod.mk.injEq] at hmem
+  obtain ⟨q, hq, rfl, rfl⟩ := hmem
+  have hnil := (KafVerif.C19.no_write_without_gate _ hw).1
+  simp only at hnil
+  have hcov := KafVerif.C19.acquireAll_covers_every_partition b fail l parts
+  have := leaseOf_mem (acquireAll b fail l parts).2 q (by rw [hcov]; exact hq)
+  rw [hnil] at this
+  exact KafVerif.C19.acquireAll_nil_owned b fail l parts q this
 
 /-- in the interleaved system the handler passes its lease step only while it owns the partition -/
 theorem _root_.KafVerif.C19.gate_step_owned (y : Sys) (b r : Nat) (h : (sstep y (.gate b r)).passed b r = true)
